@@ -16,6 +16,7 @@ import (
 	"context"
 	"fmt"
 	"math/rand"
+	"path/filepath"
 
 	"0chain.net/chaincore/block"
 	"0chain.net/chaincore/chain"
@@ -63,6 +64,7 @@ type drv struct {
 	base   int64 // round of the head at trace start
 	pruned int64 // highest version pruned so far (absolute)
 	keys   []util.Path
+	saved  map[string]util.Node // every node ever created, by hash (repair after a recorded violation)
 }
 
 // Run is the driver entry point.
@@ -80,15 +82,80 @@ func Run(a common.Args) {
 		d.keys = append(d.keys, util.Path(encryption.Hash(fmt.Sprintf("c27-key-%d", i))))
 	}
 	d.finals = []fin{{0, w.Genesis.ClientStateHash}}
+	d.saved = map[string]util.Node{}
+	d.remember(w.Genesis.ClientState)
+	// The traces of a run share one store, so a trace is only re-executable together with its
+	// predecessors: with --only k the traces before k are executed silently (recorded elsewhere),
+	// the traces after k are skipped.
+	var silent *rec.Recorder
+	if a.Only > 1 {
+		silent = rec.New(filepath.Join(a.Out, "prefix"))
+		defer silent.Close()
+	}
 	id := 0
 	for i := 0; i < a.N; i++ {
 		id++
-		if a.Only != 0 && a.Only != id {
+		if a.Only != 0 && id > a.Only {
+			break
+		}
+		d.r = common.TraceRand(a.Seed, id)
+		if a.Only != 0 && id < a.Only {
+			d.rc = silent
+			d.trace(id, a)
+			d.rc = rc
 			rc.TraceID = id
 			continue
 		}
-		d.r = common.TraceRand(a.Seed, id)
 		d.trace(id, a)
+	}
+}
+
+// remember keeps a copy of every node of the given state (used only to repair the store after a
+// violation has been recorded, so that the rest of the run stays meaningful).
+func (d *drv) remember(s util.MerklePatriciaTrieI) {
+	_ = s.Iterate(context.Background(), func(ctx context.Context, path util.Path, key util.Key, n util.Node) error {
+		if n != nil && key != nil {
+			d.saved[util.ToHex(key)] = n.CloneNode()
+		}
+		return nil
+	}, util.NodeTypeLeafNode|util.NodeTypeFullNode|util.NodeTypeExtensionNode)
+}
+
+// heal puts back the nodes that the retained blocks miss (after the observation was recorded).
+func (d *drv) heal(v int64) {
+	sdb := d.c.GetStateDB()
+	for round := 0; round < 64; round++ {
+		var missing []util.Key
+		lo := 0
+		if len(d.finals) > 12 {
+			lo = len(d.finals) - 12
+		}
+		for _, f := range d.finals[lo:] {
+			if f.round < v {
+				continue
+			}
+			m := util.NewMerklePatriciaTrie(sdb, util.Sequence(f.round), f.root, statecache.NewEmpty())
+			_ = m.Iterate(context.Background(), func(ctx context.Context, path util.Path, key util.Key, n util.Node) error {
+				if n == nil && key != nil {
+					missing = append(missing, append(util.Key{}, key...))
+				}
+				return nil
+			}, util.NodeTypeValueNode|util.NodeTypeLeafNode|util.NodeTypeFullNode|util.NodeTypeExtensionNode)
+		}
+		if len(missing) == 0 {
+			return
+		}
+		put := 0
+		for _, k := range missing {
+			if n, ok := d.saved[util.ToHex(k)]; ok {
+				if err := sdb.PutNode(k, n); err == nil {
+					put++
+				}
+			}
+		}
+		if put == 0 {
+			rec.Fatal("store is missing %d nodes that cannot be restored", len(missing))
+		}
 	}
 }
 
@@ -206,6 +273,10 @@ func (d *drv) trace(id int, a common.Args) {
 		c.AddRound(r)
 		c.AddNotarizedBlockToRound(r, b)
 		changes, deletes := b.ClientState.GetChangeCount(), len(b.ClientState.GetDeletes())
+		_, chs, _, _ := b.ClientState.GetChanges()
+		for _, ch := range chs {
+			d.saved[ch.New.GetHash()] = ch.New.CloneNode()
+		}
 		mode, ferr := "finalizeBlock", ""
 		if synced {
 			mode = "finalizeBlock-synced"
@@ -227,6 +298,9 @@ func (d *drv) trace(id int, a common.Args) {
 		_, total := d.check(b.Round) // the block just finalized must be completely in the store
 		d.rc.Emit(rec.M{"ev": "Block", "round": d.rel(b.Round), "n_ops": len(ops), "ops": orEmpty(ops), "changes": changes, "deletes": deletes,
 			"mode": mode, "err": ferr, "is_lfb": lfb.Hash == b.Hash, "missing": total}, mode+"/"+opShape(ops), true)
+		if total > 0 {
+			d.heal(b.Round)
+		}
 
 		// prune at some version up to the latest finalized round
 		switch x := d.r.Intn(10); {
@@ -313,6 +387,9 @@ func (d *drv) emitPrune(via string, v int64, perr string) {
 	}
 	d.rc.Emit(rec.M{"ev": "Prune", "via": via, "v": d.rel(v), "checked": checked, "n_checked": len(checked), "missing": total,
 		"below_missing": below, "err": perr}, shape, true)
+	if total > 0 {
+		d.heal(v)
+	}
 }
 
 func opShape(ops []string) string {
